@@ -49,6 +49,11 @@ func vfAddrType(s string) network.AddressType {
 	return network.AddressTypeError
 }
 
+// vfCidText replaces ChainID.ToJSON / p2putil.PrintChainID (json and strings.Builder internals), which only feed the
+// text of the refusal error.
+func vfCidText(id types.ChainID) string   { return "chainid" }
+func vfCidTextP(id *types.ChainID) string { return "chainid" }
+
 func vfChainID(tag string, l int) *types.ChainID {
 	c := &types.ChainID{
 		Version:   vf.I32(tag + ".Version"),
@@ -65,9 +70,11 @@ func vfChainID(tag string, l int) *types.ChainID {
 }
 
 // C18.c (legacy wire versions): V033Handshaker.checkRemoteStatus accepts a remote status only if
-//   the remote chain id decodes and Equals the local chain id for the remote best height,
-//   the sender address is an IP or a domain name, the announced peer id is the id of the connection and the genesis
-//   hash equals the local one;
+//
+//	the remote chain id decodes and Equals the local chain id for the remote best height,
+//	the sender address is an IP or a domain name, the announced peer id is the id of the connection and the genesis
+//	hash equals the local one;
+//
 // a status that agrees in all of these is accepted. Every refusal sends exactly one go-away.
 func VF_C18_c_v033() {
 	l := vf.Param("strLen", 1)
@@ -93,7 +100,7 @@ func VF_C18_c_v033() {
 		vf.Assume(err == nil)
 		st.ChainID = b
 	case 2: // arbitrary short bytes
-		st.ChainID = vf.Bytes("remote.chainIDraw", 2*vf.Choice("rawLen", 5))
+		st.ChainID = vf.Bytes("remote.chainIDraw", [3]int{0, 6, 8}[vf.Choice("rawLen", 3)])
 	}
 	st.BestBlockHash = vf.Bytes("remote.bestHash", 32-vf.Choice("hashShort", 2))
 	if vf.Choice("hasSender", 2) == 1 {
@@ -109,23 +116,25 @@ func VF_C18_c_v033() {
 
 	err := h.checkRemoteStatus(st)
 
-	// specification, from the same primitives
+	// specification, from the same primitives (built without forking)
 	rc := types.NewChainID()
 	decodeErr := rc.Read(st.ChainID)
-	chainOK := decodeErr == nil && local.Equals(rc)
+	chainOK := false
+	if decodeErr == nil {
+		chainOK = vf.And(vf.And(rc.Version == local.Version, rc.PublicNet == local.PublicNet),
+			vf.And(rc.MainNet == local.MainNet, vf.And(rc.Magic == local.Magic, rc.Consensus == local.Consensus)))
+	}
 	hashOK := len(st.BestBlockHash) == 32
 	addrOK := st.Sender != nil && vfAddrType(st.Sender.Address) != network.AddressTypeError
 	idOK := false
 	agentOK := true
 	if st.Sender != nil {
-		idOK = types.PeerID(st.Sender.PeerID) == peerID
-		if st.Sender.Role == types.PeerRole_Agent {
-			agentOK = len(st.Sender.ProducerIDs) > 0
-		}
+		idOK = string(st.Sender.PeerID) == string(peerID)
+		agentOK = vf.Or(st.Sender.Role != types.PeerRole_Agent, len(st.Sender.ProducerIDs) > 0)
 	}
 	genesisOK := bytes.Equal(genesis, st.Genesis)
 	_, _ = hashOK, agentOK // 0.3.x does not check the format of the best block hash and has no roles
-	want := chainOK && addrOK && idOK && genesisOK
+	want := vf.And(vf.And(chainOK, addrOK), vf.And(idOK, genesisOK))
 	vf.Reach("C18.c.v033")
 	vf.Assert((err == nil) == want, "C18.c.v033")
 	if err == nil {
